@@ -1,6 +1,7 @@
 import Octo.Lemmas.Wire
 import Octo.Lemmas.Repopulate
 import Octo.Lemmas.WireJson
+import Octo.Lemmas.PluginFlow
 import Octo.Lemmas.ValueOrder
 /-!
 # C26 — The plugin protocol carries data and predicates without change
@@ -193,6 +194,23 @@ theorem predicate_never_misrouted (e : PExpr) (h : typechecked Gen.WireFunctions
     ∃ e' ok, repopTree Gen.WireFunctions.table (stripFns e) = some (e', ok) ∧ (ok = true → e' = e) :=
   repopTree_safe fn_table_ok e h
 
+/-- **no predicate is lost on the way**: whatever `PhysicalDatasource.PushDownPredicates` (executor.go) is given comes
+    back — as rejected (octosql keeps filtering by it) or as pushed down — including the predicates it does not send
+    (subqueries) and those the plugin side (`physicalServer.PushDownPredicates`, plugins.go) keeps from the datasource
+    because it does not know their functions; provided the datasource's own `PushDownPredicates` loses nothing -/
+theorem pushdown_conserves (impl : PushImpl)
+    (himpl : ∀ a b, ((impl a b).1 ++ (impl a b).2.1).Perm (a ++ b)) (newPreds pushed : List Pred) :
+    ((clientPushDown impl newPreds pushed).1 ++ (clientPushDown impl newPreds pushed).2.1).Perm (newPreds ++ pushed) :=
+  clientPushDown_perm impl himpl newPreds pushed
+
+/-- a predicate with a subquery or with a function unknown to the plugin is never handed to the datasource -/
+theorem pushdown_filters (impl : PushImpl) (newPreds pushed : List Pred) :
+    clientPushDown impl newPreds pushed =
+      let sent := (newPreds.filter fun p => !p.hasSubquery).filter (·.known)
+      ((impl sent pushed).1 ++ ((newPreds.filter fun p => !p.hasSubquery).filter fun p => !p.known)
+        ++ newPreds.filter (·.hasSubquery), (impl sent pushed).2.1, (impl sent pushed).2.2) := by
+  simp [clientPushDown, serverPushDown]
+
 /-! ## 6. Constants of a predicate through `encoding/json` (library behaviour, as modelled in `WireJson`) -/
 
 /-- a constant made of finite floats, UTF-8 strings and times with a four-digit year reaches the plugin unchanged -/
@@ -333,6 +351,10 @@ def sampleTree : PExpr :=
 example : (repopTree Gen.WireFunctions.table (stripFns sampleTree)).map (fun p => (fnsOf p.1, p.2))
     = some ([some 1, some 0, some 3], true) := by decide
 example : fnsOf (stripFns sampleTree) = [none, none, none] := by decide
+/-- a datasource that pushes everything down (the test plugin): a subquery predicate and an unknown-function predicate
+    come back as rejected, the third one is pushed down -/
+example : clientPushDown (fun a b => ([], b ++ a, true)) [⟨1, true, true⟩, ⟨2, false, false⟩, ⟨3, false, true⟩] []
+    = ([⟨2, false, false⟩, ⟨1, true, true⟩], [⟨3, false, true⟩], true) := by decide
 /-- … and it satisfies the hypothesis of `predicate_roundtrip` -/
 example : exactTyped Gen.WireFunctions.table sampleTree := by
   simp only [sampleTree, exactTyped, exactTypedL, and_true, true_and]
